@@ -709,12 +709,16 @@ def run_C17(ck):
         pre = rng.bytes(rng.range(1, 60))
         pb = ProgBuilder(None)
         for _ in range(rng.range(1, 10)): pb.random_sym(rng, 2)
-        pb.match(pick_dist(rng, pb.maxd()), rng.range(3, 200))
+        # the declared size must fall STRICTLY INSIDE the final match (a size that lands on a symbol boundary is simply a shorter,
+        # well-formed chunk followed by whatever the unused payload bytes happen to spell): final match longer than every d below
+        last_len = rng.range(max(3, len(pre) + 2), 273)
+        pb.match(pick_dist(rng, pb.maxd()), last_len)
         lc, lp, pbits = rand_props(rng, lzma2=True)
         cls = rng.choice([3, 3, 2])
         reqs.append('ref_lzma2 chunks=U1:%s/Z%d:%d,%d,%d:0:%s' % (hx(pre), cls, lc, lp, pbits, pb.text()))
         d = rng.choice([len(pre), len(pre), 1, 2])
-        metas.append(('unpacked_too_small_in_later_chunk', pb.n, min(d, pb.n - 1), 3 + len(pre)))
+        assert 1 <= d < last_len
+        metas.append(('unpacked_too_small_in_later_chunk', pb.n, d, 3 + len(pre)))
     for enc, meta in zip(ref_encode(reqs), metas):
         if enc is None: raise InfraError('reference serialiser rejected a C17 program')
         if len(meta) == 4:
